@@ -569,17 +569,39 @@ Section QueueProofs.
     /\ total_len (chunks q') <= total_len (chunks q) + length (wr o)
     /\ (forall W R X, G q W R X -> G q' (W ++ wr o) (R ++ out) (X ++ x))
     /\ pending q ++ wr o = out ++ pending q' ++ concat x
-    /\ x = match o with ODrop => tl (chunks q) | _ => [] end.
+    /\ x = match o with ODrop => tl (chunks q) | _ => [] end
+    /\ match o with
+       | OWrite b => chunks q' = push_last (chunks q) b
+       | OFlush => q' = flush q
+       | ODrop => chunks q' = firstn 1 (chunks q)
+       | _ => exists k, chunks q' = skipn k (chunks q)
+       end.
+
+  Lemma takes_chunks : forall (q : queue) out q', takes q out q' ->
+    exists k, chunks q' = skipn k (chunks q).
+  Proof.
+    intros q out q' H. induction H as [q|q amt q1 out q2 Ht Hts [k IH]].
+    - exists 0. reflexivity.
+    - destruct Ht as [[_ ->]|[_ ->]].
+      + exists k. exact IH.
+      + exists (1 + k). rewrite IH. unfold q_pop. cbn [chunks].
+        destruct (chunks q); cbn [tl skipn plus]; [now rewrite skipn_nil|reflexivity].
+  Qed.
+
+  Definition take_op (o : op) : Prop :=
+    match o with OWrite _ | OFlush | ODrop => False | _ => True end.
 
   Lemma takes_post : forall (q : queue) o out q',
-    Inv q -> takes q out q' -> wr o = [] -> o <> ODrop -> step_post q o q' out [].
+    Inv q -> takes q out q' -> take_op o -> step_post q o q' out [].
   Proof.
-    intros q o out q' HI Ht Hw Hd.
+    intros q o out q' HI Ht Hop.
     destruct (takes_sound q out q' Ht HI) as (HI' & Htot & HG & Hp).
+    assert (Hw : wr o = []) by (destruct o; auto; contradiction).
     unfold step_post. rewrite Hw. cbn [length]. split; auto. split; [lia|]. split; [|split].
     - intros W R X HG0. rewrite !app_nil_r. now apply HG.
     - cbn. now rewrite !app_nil_r.
-    - destruct o; auto. congruence.
+    - split; [destruct o; auto; contradiction|].
+      destruct o; try (now apply (takes_chunks q out q')); contradiction.
   Qed.
 
   Lemma consume_take' : forall (q : queue) amt, Inv q ->
@@ -623,13 +645,13 @@ Section QueueProofs.
     - (* read *)
       right. destruct (read_ok q n B HI Htot HB) as (q' & E & Ht & Hr). rewrite E. cbn [bind].
       eexists q', _, _, []. split; [reflexivity|].
-      rewrite Hr. apply takes_post; auto; [now apply takes_one|discriminate].
+      rewrite Hr. apply takes_post; [auto|now apply takes_one|exact I].
     - (* consume *)
       rewrite (as_slice_ok q (inv_off q HI)). cbn [bind].
       destruct (consume_take' q amt HI) as [[E Hov]|(q' & E & Ht)]; rewrite E; cbn [bind].
       + left. split; auto. cbn. lia.
       + right. eexists q', _, _, []. split; [reflexivity|].
-        apply takes_post; auto; [now apply takes_one|discriminate].
+        apply takes_post; [auto|now apply takes_one|exact I].
     - (* consume_with *)
       rewrite (as_slice_ok q (inv_off q HI)). cbn [bind]. unfold consume_with.
       rewrite (as_slice_ok q (inv_off q HI)). cbn [bind].
@@ -637,11 +659,11 @@ Section QueueProofs.
         rewrite E; cbn [bind].
       + left. split; auto. unfold consumer in Hov. destruct clamp; cbn; lia.
       + right. eexists q', _, _, []. split; [reflexivity|].
-        apply takes_post; auto; [now apply takes_one|discriminate].
+        apply takes_post; [auto|now apply takes_one|exact I].
     - (* consume_with, consumer fails *)
       right. unfold consume_with_err. rewrite (as_slice_ok q (inv_off q HI)). cbn [bind].
       eexists q, _, [], []. split; [reflexivity|].
-      apply takes_post; auto; [constructor|discriminate].
+      apply takes_post; [auto|constructor|exact I].
     - (* drop *)
       right. destruct (drop_ok q HI) as (q' & E & HI' & Hf & Ht & Hd & Hc & Ho & Hq).
       rewrite E. cbn [bind]. eexists q', _, [], _. split; [reflexivity|].
@@ -654,7 +676,7 @@ Section QueueProofs.
     - (* read_to_end *)
       right. destruct (read_to_end_ok q B HI Htot HB) as (q' & E & Hts & _). rewrite E. cbn [bind].
       eexists q', _, _, []. split; [reflexivity|].
-      apply takes_post; auto. discriminate.
+      apply takes_post; [auto|auto|exact I].
   Qed.
 
   (* ---------------- histories *)
